@@ -1180,6 +1180,7 @@ func replacePairRemote(pair *CandidatePair, remote Candidate) *CandidatePair {
 	replacement.state = pair.state
 	replacement.nominated = pair.nominated
 	replacement.nominateOnBindingSuccess = pair.nominateOnBindingSuccess
+	replacement.nominationValueOnBindingSuccess = pair.nominationValueOnBindingSuccess
 
 	atomic.StoreInt64(&replacement.currentRoundTripTime, atomic.LoadInt64(&pair.currentRoundTripTime))
 	atomic.StoreInt64(&replacement.totalRoundTripTime, atomic.LoadInt64(&pair.totalRoundTripTime))
